@@ -468,7 +468,11 @@ func c11RefreshFormStage(env *verifEnv, res *verifResult, keys *verifKeys, roleC
 						}
 					}
 				}
-				outside = append(outside, c11PeerV4([4]byte{203, 0, 113, 9}), c11PeerV4([4]byte{10, 99, 0, 1}))
+				for _, q := range []c11Peer{c11PeerV4([4]byte{203, 0, 113, 9}), c11PeerV4([4]byte{10, 99, 0, 1}), c11PeerV4([4]byte{127, 0, 0, 1})} {
+					if !c11InsideAny(raw, q) {
+						outside = append(outside, q)
+					}
+				}
 				tried := map[string]bool{}
 				for _, q := range outside {
 					if tried[q.addr] {
